@@ -10,9 +10,9 @@
    _tskitmodule.c) cannot be exhibited by a Gallina model: only schedule independence of
    the combination logic is proved. *)
 From Coq Require Import List ZArith QArith.
-From TskVerif Require Import C08.Model C08.Incremental C08.Afs C08.Shapes C08.PairSpan C08.Rf
+From TskVerif Require Import C08.Model C08.Incremental C08.Afs C08.Shapes C08.PairSpan C08.Rf C08.RelVec
   C08.WindowProofs C08.ChunkProofs C08.IncrementalProofs C08.AfsProofs C08.ShapesProofs
-  C08.PairSpanProofs C08.RfProofs.
+  C08.PairSpanProofs C08.RfProofs C08.RelVecProofs.
 Import ListNotations.
 Open Scope Q_scope.
 
@@ -131,3 +131,12 @@ Theorem rf_distance_refuted :
     p1 = [1; 2; -1]%Z /\ p2 = [2; 2; -1]%Z /\ samples = [0; 2]%Z /\
     rf_code p1 p2 samples = 1%Z /\ rf_spec p1 p2 samples = 0%Z.
 Proof. exact rf_counts_empty_clade. Qed.
+
+(* REFUTED (finding C08-F5): genetic_relatedness_vector accepts span_normalise and ignores
+   it. *)
+Theorem relatedness_vector_span_normalise_refuted :
+  exists time W i segs ws,
+    segs = [mkseg 0 3 [2; 2; (-1)]%Z] /\ ws = [0; 3] /\
+    qlist_eqb (grv_code true time W i segs ws) [9] = true /\
+    qlist_eqb (grv_spec true time W i segs ws) [3] = true.
+Proof. exact grv_ignores_span_normalise. Qed.
